@@ -8,7 +8,8 @@
      C14_key, C14_term_key            _handle_key / on_term_key deliver exactly [key_spec]
      C14_mouse                        _handle_mouse delivers exactly [mouse_phase] of [mouse_order]
      mouse_order_relative             ... each at the position relative to the receiver
-     C14_hidden_never(_key,_mouse)    only visible windows with visible ancestors are on a route
+     C14_hidden_never(_key,_mouse,_drag) only visible windows with visible ancestors are on a route
+                                      or get a directly delivered drag event
      C14_drag, spec_start, spec_outside, spec_release
                                       the drag bracket rules, per step and over every sequence
      C14_term_mouse(_f), C14_term_mouse_seq
@@ -1262,7 +1263,10 @@ Definition to_source (fuel : nat) (cfg : defects) (claims : Z -> Z) (btn line co
   | Some src =>
     match (if mem src (i_freed s) then None else f_abs_origin (i_root s) src) with
     | None => i_faulty s
-    | Some o => fst (handle_mouse fuel cfg claims s src ty' btn (line - fst o) (col - snd o))
+    | Some o =>
+      if f_path_visible (i_root s) src
+      then fst (handle_mouse fuel cfg claims s src ty' btn (line - fst o) (col - snd o))
+      else s
     end
   end.
 
@@ -1359,8 +1363,9 @@ Proof.
   destruct (r_dsrc R) as [src|]; [|reflexivity].
   cbn [mem existsb].
   destruct (t_path_some src _ Hok) as (p & Hp). destruct (t_find_some src _ Hok) as (sb & Hsb).
-  unfold f_abs_origin, tree_origin, forest. cbn [first_some]. rewrite Hp, Hsb.
+  unfold f_abs_origin, tree_origin, f_path_visible, path_visible, forest. cbn [first_some]. rewrite Hp, Hsb.
   set (o := fold_left _ p (0, 0)).
+  destruct (forallb (fun w => w_vis (t_info w)) p); [|reflexivity].
   destruct (t_find_sub _ _ _ Hsb) as (Hsub & Hid). subst src.
   assert (Hs : subl sb (forest R)) by (exists (r_tree R); split; [left; reflexivity|exact Hsub]).
   assert (Hhs : (height sb < fuel)%nat) by (apply height_sub in Hsub; lia).
@@ -1595,8 +1600,17 @@ Lemma to_source_in claims t src ty btn line col e :
 Proof.
   unfold to_source_spec. destruct src as [s|]; [|intros []].
   destruct (t_find s t) as [sb|] eqn:Ef; [|intros []]. destruct (tree_origin t s) as [o|] eqn:Eo; [|intros []].
+  destruct (path_visible t s); [|intros []].
   intros Hin. apply mouse_phase_in in Hin. destruct Hin as (w & l & c & He & Hi).
   exists s, sb, o, w, l, c. split; [reflexivity|]. split; [exact Ef|]. split; [exact Eo|]. split; [exact He|exact Hi].
+Qed.
+
+(* ... and only to a source that is visible together with everything above it *)
+Lemma to_source_vis claims t s ty btn line col e :
+  In e (to_source_spec claims t (Some s) ty btn line col) -> path_visible t s = true.
+Proof.
+  unfold to_source_spec. destruct (t_find s t); [|intros []]. destruct (tree_origin t s); [|intros []].
+  destruct (path_visible t s); [reflexivity|intros []].
 Qed.
 
 Lemma mouse_phase_ty claims route ty btn e :
@@ -1899,6 +1913,84 @@ Proof.
     + apply mouse_phase_ty in Hin. lia.
     + destruct (ty =? 2); [|destruct Hin]. destruct (ds_src (snd _)); [|destruct Hin].
       destruct (opt_is _ _); [destruct Hin|]. apply to_source_ty in Hin. lia.
+Qed.
+
+(* ---- hidden windows and the synthesised drag events ---- *)
+Lemma t_path_self t : t_path (t_id t) t = Some [t].
+Proof. destruct t as [i ch]. rewrite t_path_eq. unfold t_id. cbn [t_info]. rewrite Z.eqb_refl. reflexivity. Qed.
+
+(* the path to w through a subtree sb of t: the path to sb, then the path inside sb *)
+Lemma t_path_compose t sb w pw :
+  NoDup (t_ids t) -> sub sb t -> t_path w sb = Some pw ->
+  exists ps p, t_path (t_id sb) t = Some ps /\ t_path w t = Some p /\
+               forall n, In n p -> In n ps \/ In n pw.
+Proof.
+  intros Hnd Hs Hpw. induction Hs as [t|sb k t Hk Hs IH].
+  - exists [t], pw. split; [apply t_path_self|]. split; [exact Hpw|]. intros n Hn. right. exact Hn.
+  - assert (Hndk : NoDup (t_ids k)).
+    { apply NoDup_kids in Hnd. destruct Hnd as (Hnd & _). eapply NoDup_flat_in; eassumption. }
+    destruct (IH Hndk Hpw) as (ps & p & Hps & Hp & Hin).
+    exists (t :: ps), (t :: p).
+    split; [apply (path_step _ t k ps Hnd Hk Hps)|]. split; [apply (path_step _ t k p Hnd Hk Hp)|].
+    intros n [Hn|Hn]; [left; left; exact Hn|]. destruct (Hin n Hn) as [Hx|Hx]; [left; right; exact Hx|right; exact Hx].
+Qed.
+
+(* every delivery of one terminal mouse event comes from a routing phase from the root, or
+   from the direct delivery to a drag source *)
+Lemma mouse_spec_events claims t ds ty btn line col e :
+  In e (fst (mouse_spec claims t ds ty btn line col)) ->
+  (exists l c ty2 b2, In e (fst (mouse_phase claims (mouse_order t l c) ty2 b2))) \/
+  (exists src ty2, In e (to_source_spec claims t src ty2 btn line col)).
+Proof.
+  rewrite mouse_spec_split. cbn [fst]. unfold spec_pre, spec_post. intros Hin.
+  apply in_app_or in Hin. destruct Hin as [Hin|Hin].
+  - destruct (ty =? 1); [destruct Hin|].
+    destruct ((ty =? 2) && negb (ds_dragging ds)).
+    { cbn [fst] in Hin. left. eexists _, _, _, _. exact Hin. }
+    destruct ((ty =? 3) && ds_dragging ds); [|destruct Hin]. cbn [fst] in Hin.
+    apply in_app_or in Hin. destruct Hin as [Hin|Hin].
+    + left. eexists _, _, _, _. exact Hin.
+    + right. eexists _, _. exact Hin.
+  - apply in_app_or in Hin. destruct Hin as [Hin|Hin].
+    + left. eexists _, _, _, _. exact Hin.
+    + destruct (ty =? 2); [|destruct Hin]. destruct (ds_src (snd _)) eqn:Es; [|destruct Hin].
+      destruct (opt_is _ _); [destruct Hin|]. right. eexists _, _. exact Hin.
+Qed.
+
+(* C14: a hidden window, and every window below a hidden one, gets none of the events of a
+   terminal mouse event either -- not as a drag source (START is routed, OUTSIDE and STOP are
+   sent directly), not as a window inside the subtree of a drag source *)
+Theorem C14_hidden_never_drag : forall claims t w path n ty btn line col,
+  NoDup (t_ids t) -> t_path w t = Some path -> In n path -> w_vis (t_info n) = false ->
+  to_source_spec claims t (Some w) ty btn line col = [] /\
+  forall ds ty' e, raw_ty ty' -> In e (fst (mouse_spec claims t ds ty' btn line col)) -> iev_win e <> w.
+Proof.
+  intros claims t w path n ty btn line col Hnd Hp Hn Hhid.
+  assert (Hpv : path_visible t w = false).
+  { unfold path_visible. rewrite Hp. destruct (forallb (fun x => w_vis (t_info x)) path) eqn:E; [|reflexivity].
+    rewrite forallb_forall in E. rewrite (E n Hn) in Hhid. discriminate Hhid. }
+  split.
+  { unfold to_source_spec. destruct (t_find w t); [|reflexivity]. destruct (tree_origin t w); [|reflexivity].
+    rewrite Hpv. reflexivity. }
+  intros ds ty' e _ Hin He.
+  destruct (C14_hidden_never t w path n Hnd Hp Hn Hhid) as (_ & Hmo).
+  apply mouse_spec_events in Hin. destruct Hin as [(l & c & ty2 & b2 & Hin)|(src & ty2 & Hin)].
+  - apply mouse_phase_in in Hin. destruct Hin as (x & l' & c' & -> & Hi). cbn [iev_win] in He. subst x.
+    exact (Hmo l c l' c' Hi).
+  - pose proof (to_source_in _ _ _ _ _ _ _ _ Hin) as (s & sb & o & x & l' & c' & -> & Hf & Ho & -> & Hi).
+    cbn [iev_win] in He. subst x.
+    pose proof (to_source_vis _ _ _ _ _ _ _ _ Hin) as Hvs.
+    destruct (t_find_sub _ _ _ Hf) as (Hsub & Hid).
+    assert (Hndsb : NoDup (t_ids sb)) by (eapply sub_nodup; eassumption).
+    destruct (C14_hidden_never_mouse sb _ _ w l' c' Hndsb Hi) as (pw & Hpw & Hall).
+    destruct (t_path_compose t sb w pw Hnd Hsub Hpw) as (ps & p & Hps & Hp' & Hcov).
+    rewrite Hp in Hp'. inversion Hp'; subst p. clear Hp'.
+    destruct (Hcov n Hn) as [Hx|Hx].
+    + (* the hidden window is on the way to the source: nothing is sent to the source *)
+      unfold path_visible in Hvs. rewrite <- Hid, Hps in Hvs. rewrite forallb_forall in Hvs.
+      rewrite (Hvs n Hx) in Hhid. discriminate Hhid.
+    + (* it is inside the source's subtree: w is not on the route there *)
+      unfold all_visible in Hall. rewrite Forall_forall in Hall. rewrite (Hall n Hx) in Hhid. discriminate Hhid.
 Qed.
 
 (* ---- the model over sequences ---- *)
